@@ -362,6 +362,50 @@ func genRule(r *rng.R, ft feat) []Item {
 	return out
 }
 
+func flipCase(c int) int {
+	switch {
+	case c >= 'a' && c <= 'z':
+		return c - 32
+	case c >= 'A' && c <= 'Z':
+		return c + 32
+	}
+	return c
+}
+
+// caseVariant: the same rule with the case of every letter (literals, class ranges, quoted text) swapped:
+// a different expression whose text differs from the original only in letter case
+func caseVariant(l []Item) []Item {
+	out := make([]Item, len(l))
+	for i, it := range l {
+		switch it.K {
+		case "lit":
+			it.C = flipCase(it.C)
+		case "class":
+			rs := make([][2]int, len(it.Ranges))
+			for j, r := range it.Ranges {
+				rs[j] = [2]int{flipCase(r[0]), flipCase(r[1])}
+				if rs[j][0] > rs[j][1] { // a range of mixed kind stays as it is
+					rs[j] = r
+				}
+			}
+			it.Ranges = rs
+		case "quote":
+			bs := []byte(it.S)
+			for j := range bs {
+				bs[j] = byte(flipCase(int(bs[j])))
+			}
+			it.S = string(bs)
+		case "rep":
+			x := caseVariant([]Item{*it.X})[0]
+			it.X = &x
+		case "group":
+			it.Body = caseVariant(it.Body)
+		}
+		out[i] = it
+	}
+	return out
+}
+
 // literal material of a rule, used to derive hosts near the rule's language
 func literalRuns(l []Item, acc *[]string) {
 	cur := ""
@@ -655,6 +699,10 @@ func corpus() []listCase {
 		{[]entry{{false, append(lit2(".example.com"), Item{K: "eol"})}, {true, lit2("-staging.")}}, reversePerm(2),
 			[]string{"staging.example.com", "x-staging.example.com", "www.example.com", "-staging.example.com"}},
 		{[]entry{{false, lit2("x")}, {true, lit2("--x")}, {true, lit2("-")}}, []int{2, 0, 1}, []string{"x", "a--x", "a-x", "-x", "--x", "ax"}},
+		{[]entry{{false, lit2("example")}, {false, lit2("EXAMPLE")}}, reversePerm(2), []string{"example.com", "EXAMPLE.COM", "Example", "x"}},
+		{[]entry{{false, lit2("EXAMPLE")}, {false, lit2("example")}}, reversePerm(2), []string{"example.com", "EXAMPLE.COM", "Example", "x"}},
+		{[]entry{{false, []Item{{K: "any"}}}, {true, []Item{{K: "class", Ranges: [][2]int{{'a', 'z'}}}}}, {true, []Item{{K: "class", Ranges: [][2]int{{'A', 'Z'}}}}}},
+			[]int{2, 0, 1}, []string{"abc", "ABC", "123", "a1", "A1", "-"}},
 		{[]entry{{false, nil}}, identityPerm(1), hosts},
 		{[]entry{{false, nil}, {false, nil}}, reversePerm(2), hosts},
 		{[]entry{{false, lit2("foo")}, {true, nil}}, reversePerm(2), hosts},
@@ -836,6 +884,19 @@ func main() {
 					excl = true // an include rule that begins with '-' cannot be written: it reads as an exclusion
 				}
 				c.Entries = append(c.Entries, entry{Exclude: excl, Rule: ru})
+			}
+			if r.Chance(1, 5) { // a pair of rules whose texts differ only in letter case, with the same mark, in either order
+				j := r.Intn(len(c.Entries))
+				v := entry{Exclude: c.Entries[j].Exclude, Rule: caseVariant(c.Entries[j].Rule)}
+				if Text(v.Rule) != Text(c.Entries[j].Rule) {
+					rules = append(rules, v.Rule)
+					if r.Chance(1, 2) {
+						c.Entries = append(c.Entries, v)
+					} else {
+						c.Entries = append([]entry{v}, c.Entries...)
+					}
+					n = len(c.Entries)
+				}
 			}
 			c.Perm = identityPerm(n)
 			for j := n - 1; j > 0; j-- {
